@@ -10,6 +10,7 @@ import (
 	"runtime"
 	"sort"
 	"sync"
+	"sync/atomic"
 	"testing"
 	"time"
 
@@ -350,5 +351,40 @@ func TestC14(t *testing.T) {
 			}
 		}
 		run.Eval(fmt.Sprintf("table|%d|%d|%d", ng, nops, len(formats)))
+	}
+
+	// ---- first stores on a fresh event: overlapping first writers (own key each, released by a spin barrier) must
+	// all be readable afterwards; single writer per key, so the oracle is direct ---------------------------------
+	nf := run.N(6000, 150000)
+	for i := 0; i < nf && !run.Stop(); i++ {
+		cr := r.Fork()
+		ng := cr.Range(2, 6)
+		ev := &eventlogger.Event{Type: "t"}
+		preset := cr.Intn(4) == 0
+		if preset {
+			ev.Formatted = map[string][]byte{}
+		}
+		var arrived int32
+		var wg sync.WaitGroup
+		for g := 0; g < ng; g++ {
+			wg.Add(1)
+			go func(g int) {
+				defer wg.Done()
+				atomic.AddInt32(&arrived, 1)
+				for atomic.LoadInt32(&arrived) < int32(ng) {
+					runtime.Gosched()
+				}
+				ev.FormattedAs(fmt.Sprintf("k%d", g), []byte(fmt.Sprintf("v%d-%d", i, g)))
+			}(g)
+		}
+		wg.Wait()
+		for g := 0; g < ng; g++ {
+			b, ok := ev.Format(fmt.Sprintf("k%d", g))
+			if !ok || string(b) != fmt.Sprintf("v%d-%d", i, g) {
+				run.Violation("history-pattern:format-table-first-store-lost", fmt.Sprintf("FormattedAs(%q) returned on a fresh event, but Format afterwards gives %q,%v", fmt.Sprintf("k%d", g), b, ok),
+					map[string]any{"writers": ng, "table_preset": preset})
+			}
+		}
+		run.Eval(fmt.Sprintf("first|%d|%v", ng, preset))
 	}
 }
